@@ -157,7 +157,7 @@ def rzStep (s : DState) (toks : List String) : DState × String :=
         let head := match e with | none => "ok" | some e => errStr e
         (s, head ++ " " ++ toString b.length ++ " " ++ toString (fnv64 b))
       else
-        let o0 := if pre = "1" then staleOut else noOut
+        let o0 := if pre = "1" || pre = "2" then staleOut else noOut   -- 2: output of an earlier recovery
         let (o, e) := doRecover s.repo when wv o0
         let head := match e with | none => "ok" | some e => errStr e
         let fileS := match o.file with
